@@ -1,4 +1,5 @@
 /- GENERATED: all regenerated tables. -/
 import FmtModel.Generated.Assets
+import FmtModel.Generated.Esc
 import FmtModel.Generated.Fmt
 import FmtModel.Generated.Ver
